@@ -84,7 +84,7 @@ def _random_part(ck, binary, only=None):
         inputs = [only]
     else:
         inputs = []
-        for _ in range(20000 if ck.thorough else 2500):
+        for _ in range(20000 if ck.thorough else 1000):
             roots = ck.rng.choice(_ROOTS)
             inputs.append({"host": _rand_host(ck.rng, roots), "roots": roots})
     lines = [{"host": _split(x["host"]), "lit": "", "roots": [_split(r) for r in x["roots"]], "ports": [443, 65535]} for x in inputs]
